@@ -125,11 +125,13 @@ def common_attrs(ctx, ver, otype, with_mask=True, want_mask=0):
     if with_mask:
         at.append(A('Cryptographic Usage Mask', gen_mask(ctx, want_mask)))
     n = r.choice([0, 0, 1, 1, 2, 3])
+    ctx.last_names = []
     for i in range(n):
         nm = ctx.uname()
         if r.random() < 0.03:
             nm += u'-é中'
         at.append(A('Name', [nm, r.choice([1, 1, 2])], i))
+        ctx.last_names.append(nm)
     if ver < (2, 0) and r.random() < 0.35:
         at.append(A('Operation Policy Name', r.choice(ctx.policies)))
     for i in range(r.choice([0, 0, 0, 1, 2])):
@@ -145,7 +147,8 @@ def common_attrs(ctx, ver, otype, with_mask=True, want_mask=0):
 
 def note(ctx, label, otype, actor, mask=0, state='PreActive'):
     o = {'label': label, 'otype': otype, 'state': state, 'mask': mask,
-         'owner': actor}
+         'owner': actor, 'names': list(getattr(ctx, 'last_names', []))}
+    ctx.last_names = []
     ctx.objs.append(o)
     return o
 
@@ -464,6 +467,18 @@ def gen_attr_op(ctx, ver, actor):
     if k == 'Set':
         return {'op': 'SetAttribute', 'uid': ref, 'new': A(name, val(name))}
     idx = r.choice([None, 0, 0, 1, 2, 5])
+    mine = (o or {}).get('names') or []
+    if name == 'Name' and k == 'Modify' and len(mine) >= 2 and \
+            r.random() < 0.4:
+        # one instance of a multi-valued attribute is given the value
+        # another instance of the same object already has
+        i, j = r.sample(range(len(mine)), 2)
+        if ver >= (2, 0):
+            return {'op': 'ModifyAttribute', 'uid': ref,
+                    'cur': A('Name', [mine[i], 1]),
+                    'new': A('Name', [mine[j], 1])}
+        return {'op': 'ModifyAttribute', 'uid': ref,
+                'attr': A('Name', [mine[j], 1], i)}
     if k == 'Modify':
         if ver >= (2, 0):
             op = {'op': 'ModifyAttribute', 'uid': ref,
@@ -647,6 +662,9 @@ def gen_request(ctx, actor=None, ver=None, max_items=3, weights=None,
         # on single-item requests too
         req['ids'] = ['%02x' % (i + 1) + ctx.rbytes(r.choice(
             [0, 1, 6, 7, 8, 15, 23, 31, 63])) for i in range(len(items))]
+        if len(items) > 1 and r.random() < 0.2:
+            # nothing obliges a client to choose different identifiers
+            req['ids'][-1] = req['ids'][0]
     if len(items) > 1:
         req['cont'] = r.choice([None, 1, 2, 2])
         if r.random() < 0.2:
